@@ -1,6 +1,8 @@
 SPECIFICATION Spec
 CONSTANTS MaxBr = 2 MaxN = 3 CopyMode = "deep"
   BufSizes <- BufAll
+  FillBr = 3
+  FillTemplates <- FillFew
   Templates <- AllTemplates
 INVARIANT Emitted
 CHECK_DEADLOCK FALSE
